@@ -29,6 +29,7 @@ sys.path.insert(0, os.path.join(core.VERIF, 'tools'))
 import tr_oneport as TO
 import tr_sections as TSEC
 import tr_stamps as TST
+import tr_netmake as TNM
 from checks import c08, c07gen
 
 PID = 'C07'
@@ -39,13 +40,19 @@ MANIFEST = {
             '(induction on the tree, any characteristic-0 field); the netlist emitted for a tree has the same terminal relation '
             '(induction over node threading); simplify() preserves Z, Y, Voc, Isc; every section constructor / network class of '
             'twoport.py, regenerated from the source on each run, satisfies the port relation of the physical section; Chain composes '
-            'relations in signal order; Ladder/LadderAlt for every argument list by induction.  Leaf table, section constructors, '
-            'Chain/Par2/Ser2/Hybrid2 are translated from the source (fail-closed); control flow (fall-backs, _combine, simplify, '
-            '_net_make) is a hand model evaluated inside Coq against the real code on every run.',
+            'relations in signal order; Ladder/LadderAlt for every argument list by induction; the source vectors (V2b, I2b) of '
+            'Series/Shunt describe the one-port placed in the section, every source conversion between the six two-port model classes '
+            '(V1a..V2z from the B model, V2b/I2b from the A/G/H/Y/Z models) keeps the affine port relation, Par2/Ser2/Hybrid2/'
+            'InverseHybrid2 add source vectors as the connection requires.  Leaf table, section constructors, source conversions, '
+            'Chain/Par2/Ser2/Hybrid2 are translated from the source (fail-closed); the node threading of Ser/Par._net_make is '
+            'executed symbolically from the source for each argument count 2..7 (2..11 thorough) and proved equal to the emitters the '
+            'netlist theorem is about; control flow (fall-backs, _combine, simplify) is a hand model evaluated inside Coq against '
+            'the real code on every run.',
     'note': 'Trusted: Coq kernel/vm_compute; tools/tr_oneport.py, tr_sections.py, tr_twoport.py + statement templates in '
             'checks/c07gen.py; specifications coq/theory/OnePort.v (sem), Sections.v, TwoPort.v, Circuit.v; hand models '
-            'props/C07model.v (validated by correspondence); signal transforms of source classes are opaque (C09/C14); the two-port '
-            'statements concern the parameter matrices (the property text), source vectors only through Chain.',
+            'props/C07model.v (validated by correspondence); tools/tr_netmake.py (symbolic execution of _net_make); signal transforms '
+            'of source classes are opaque (C09/C14); dc/ac/noise source kinds, the NetlistOpsMixin parameter probes and the physical '
+            'semantics of emitted TWO-port netlists are compared by the exact oracle only (no theorem).',
     'technique': 'Coq proof by induction over trees/lists on a model translated from source + in-Coq correspondence evaluation + exact three-route search oracle',
 }
 
@@ -109,7 +116,7 @@ ZEXPRS = ['s+1', '2*s+3', '3/(s+2)', '(s+1)/(s+2)', '5', '1/(2*s)']
 TEXPRS = [('exp(-2*t)*u(t)', '1/(s+2)'), ('3*exp(-t)*u(t)', '3/(s+1)'), ('t*u(t)', '1/(s*s)')]
 
 
-def gen_leaf(rng, cls, s0, ic_prob=0.5, dc=False):
+def gen_leaf(rng, cls, s0, ic_prob=0.5, dc=False, acw=None):
     v = lambda: rng.choice(VALS)
     d = {'cls': cls}
     if cls in ('R', 'NR'):
@@ -164,9 +171,9 @@ def gen_leaf(rng, cls, s0, ic_prob=0.5, dc=False):
             e = v(); val = F(e) / s0
             d.update(args=[e], coq=[F(e)])
         elif cls in ('Vac', 'Iac'):
-            e = v(); w = rng.choice(['1', '2', '3', '1/2'])
+            e = v(); w = acw or rng.choice(['1', '2', '3', '1/2'])
             val = F(e) * s0 / (s0 * s0 + F(w) * F(w))
-            d.update(args=[e, '0', w], coq=[val, F(0), F(w)], optmask=[False, cls == 'Vac', True])
+            d.update(args=[e, '0', w], coq=[val, F(0), F(w)], optmask=[False, cls == 'Vac', True], amp=F(e), w=F(w))
         else:
             te, le = rng.choice(TEXPRS); val = eval_s(le, s0)
             d.update(args=[te], coq=[val])
@@ -179,7 +186,7 @@ def gen_leaf(rng, cls, s0, ic_prob=0.5, dc=False):
     return d
 
 
-def gen_tree(rng, s0, depth, root=None, budget=None, profile='s'):
+def gen_tree(rng, s0, depth, root=None, budget=None, profile='s', acw=None):
     """random admissible tree.  Returns nested ['Ser'|'Par', [children]] / leaf dict"""
     if budget is None:
         budget = [rng.randint(2, 5)]
@@ -191,7 +198,7 @@ def gen_tree(rng, s0, depth, root=None, budget=None, profile='s'):
         if budget[0] <= 0 and len(kids) >= 2:
             break
         if depth > 1 and rng.random() < 0.35 and budget[0] >= 2:
-            sub = gen_tree(rng, s0, depth - 1, 'Par' if kind == 'Ser' else ('Ser' if rng.random() < 0.8 else 'Par'), budget, profile)
+            sub = gen_tree(rng, s0, depth - 1, 'Par' if kind == 'Ser' else ('Ser' if rng.random() < 0.8 else 'Par'), budget, profile, acw)
             kids.append(sub)
             has_imm = True
         else:
@@ -204,8 +211,10 @@ def gen_tree(rng, s0, depth, root=None, budget=None, profile='s'):
                 cls = rng.choice(srcs)
             else:
                 cls = rng.choice(IMM if rng.random() < 0.8 else ['R', 'L', 'C'])
+                if profile == 'ac' and cls == 'CPE':
+                    cls = 'R'       # (j w) ** alpha is not a Gaussian rational
             lf = gen_leaf(rng, cls, s0, ic_prob=0.0 if profile in ('dc', 'ac') else 0.5,
-                          dc=(profile == 'dc' or (profile == 'mixed' and rng.random() < 0.5)))
+                          dc=(profile == 'dc' or (profile == 'mixed' and rng.random() < 0.5)), acw=acw)
             if 'src' not in lf:
                 has_imm = True
             kids.append(lf)
@@ -224,7 +233,10 @@ def ser_meta(m):
             d['tb'] = [t['tb'][0], fs(t['tb'][1]), fs(t['tb'][2])]
             return d
         return [t[0], [st(c) for c in t[1]]]
-    out = {k: v for k, v in m.items() if k not in ('tree', 'tp', 's0', 'args')}
+    out = {k: (fs(v) if isinstance(v, Fraction) else v) for k, v in m.items() if k not in ('tree', 'tp', 's0', 'args', 'm', 'src')}
+    for k_ in ('m', 'src'):
+        if k_ in m:
+            out[k_] = [fs(x) for x in m[k_]]
     if 'tree' in m:
         out['tree'] = st(m['tree'])
     if 'tp' in m:
@@ -261,6 +273,12 @@ def deser_meta(m):
         out['s0'] = F(m['s0'])
     if 'args' in m:
         out['args'] = [F(a) for a in m['args']]
+    for k_ in ('m', 'src'):
+        if k_ in m:
+            out[k_] = [F(x) for x in m[k_]]
+    for k_ in ('acw', 's1'):
+        if k_ in m:
+            out[k_] = F(m[k_])
     return out
 
 
@@ -347,6 +365,35 @@ def coq_tree(t, order_params):
     if isinstance(t, dict):
         return coq_leaf(t, order_params)
     return '(%s [%s])' % (t[0], '; '.join(coq_tree(c, order_params) for c in t[1]))
+
+
+def qi_(re_, im_=0):
+    return '(QI %s %s)' % (q(re_), q(im_))
+
+
+def coq_tree_c(t, order_params):
+    """the tree over the Gaussian rationals for the phasor evaluation: real parameters, ac sources by their amplitude"""
+    if isinstance(t, dict):
+        ps = order_params[t['cls']]
+        vals = list(t['coq'])
+        if t['cls'] in ('Vac', 'Iac'):
+            vals[0] = t['amp']
+        out = []
+        for (nm, ty), v in zip(ps, vals + [None] * (len(ps) - len(vals))):
+            if ty == 'K':
+                out.append(qi_(v if v is not None else 0))
+            else:
+                out.append('None' if v is None else '(Some %s)' % qi_(v))
+        return '(Leaf (L_%s (K:=QcIF) %s))' % (t['cls'], ' '.join(out))
+    return '(%s [%s])' % (t[0], '; '.join(coq_tree_c(c, order_params) for c in t[1]))
+
+
+def phasor_from_laplace(F0, s0, F1, s1, w):
+    """a + j b of the sinusoid a cos(wt) - b sin(wt) from two values of its Laplace transform (a s - b w)/(s^2 + w^2)"""
+    G0, G1 = F0 * (s0 * s0 + w * w), F1 * (s1 * s1 + w * w)
+    a = (G0 - G1) / (s0 - s1)
+    b = (a * s0 - G0) / w
+    return a, b
 
 
 KW2CLS = {('V', 'step'): 'Vstep', ('V', 'dc'): 'Vdc', ('V', 'ac'): 'Vac', ('V', 's'): 'sV', ('V', 'noise'): 'Vnoise', ('V', ''): 'V',
@@ -563,8 +610,119 @@ def coq_tpB(P):
     return '(tB (tp_%s %s %s))' % (cls, z0, ' '.join(coq_opd(a) for a in args))
 
 
+
+# ---- two-port models with source vectors (exact, independent of the Coq model) ----------------
+SRC_OWN = {'B': ('V2b', 'I2b'), 'A': ('V1a', 'I1a'), 'G': ('I1g', 'V2g'), 'H': ('V1h', 'I2h'), 'Y': ('I1y', 'I2y'), 'Z': ('V1z', 'V2z')}
+SRC_SIGN = {'A': 1, 'B': -1, 'G': -1, 'H': -1, 'Y': -1, 'Z': -1}     # rel_rows(kind) . v = SRC_SIGN * source
+
+
+def solve_affine(rows, rhs):
+    """particular solution and null-space basis of a 2 x 4 rational system (None when rank < 2)"""
+    basis = c08.nullspace(rows)
+    if len(basis) != 2:
+        return None
+    # particular solution: eliminate on an augmented copy
+    A = [[Fraction(x) for x in r] + [Fraction(b)] for r, b in zip(rows, rhs)]
+    piv = []
+    r = 0
+    for c in range(4):
+        p = None
+        for i in range(r, 2):
+            if A[i][c] != 0:
+                p = i
+                break
+        if p is None:
+            continue
+        A[r], A[p] = A[p], A[r]
+        A[r] = [x / A[r][c] for x in A[r]]
+        for i in range(2):
+            if i != r and A[i][c] != 0:
+                f = A[i][c]
+                A[i] = [x - f * y for x, y in zip(A[i], A[r])]
+        piv.append(c)
+        r += 1
+        if r == 2:
+            break
+    v0 = [Fraction(0)] * 4
+    for i, c in enumerate(piv):
+        v0[c] = A[i][4]
+    return v0, basis
+
+
+def src_points(kind, m, src):
+    """three port states (V1, I1, V2, I2) spanning the affine relation of the model (kind, m, src)"""
+    rows = c08.rel_rows(kind, m, Fraction(1))
+    sol = solve_affine(rows, [SRC_SIGN[kind] * s for s in src])
+    if sol is None:
+        return None
+    v0, (n1, n2) = sol
+    return [v0, [a + b for a, b in zip(v0, n1)], [a + b for a, b in zip(v0, n2)]]
+
+
+def src_residual(kind, m, which, val, pts):
+    """does source number `which` (0/1) of the model (kind, m) have the value val on the given states?"""
+    row = c08.rel_rows(kind, m, Fraction(1))[which]
+    return all(sum(a * b for a, b in zip(row, v)) == SRC_SIGN[kind] * val for v in pts)
+
+
+def tb_src(P, flip_series=False):
+    """text-book B-model source vector (V2b, I2b) of a composition: a series one-port with Thevenin voltage e
+    contributes V2 = V1 - Z I1 - e, a shunt one-port with Norton current j contributes -I2 = -Y V1 + I1 + j"""
+    cls, args = P
+    sgn = 1 if flip_series else -1
+    ser = lambda t: ([F(1), -tb_values(t)['Z'], F(0), F(1)], (sgn * tb_values(t)['Voc'], F(0)))
+    sh = lambda t: ([F(1), F(0), -tb_values(t)['Y'], F(1)], (F(0), tb_values(t)['Isc']))
+
+    def chain(parts):
+        B, (vb, ib) = parts[0]
+        for Bn, (v2, i2) in parts[1:]:
+            vb, ib = v2 + Bn[0] * vb + Bn[1] * ib, i2 + Bn[2] * vb + Bn[3] * ib
+            B = mmul(Bn, B)
+        return B, (vb, ib)
+    if cls in ('Series', 'SeriesAlt'):
+        return ser(args[0])
+    if cls == 'Shunt':
+        return sh(args[0])
+    seq = {'SeriesPair': 'ss', 'LSection': 'sp', 'TSection': 'sps', 'PiSection': 'psp', 'CSection': 'ssp', 'HSection': 'sspss',
+           'BoxSection': 'pssp'}.get(cls)
+    if cls == 'Ladder':
+        seq = 's' + ''.join('s' if k & 1 else 'p' for k in range(len(args) - 1))
+    if cls == 'LadderAlt':
+        seq = 'p' + ''.join('p' if k & 1 else 's' for k in range(len(args) - 1))
+    if seq is not None:
+        return chain([(ser if c == 's' else sh)(a) for c, a in zip(seq, args)])
+    if cls == 'Chain':
+        return chain([tb_src(a, flip_series) for a in args])
+    raise ValueError(cls)
+
+
+def src_op(rng, s0, series):
+    """a one-port with a source for a series (Thevenin-able) or shunt (Norton-able) position"""
+    imm = gen_leaf(rng, rng.choice(['R', 'L', 'C', 'Z']), s0, ic_prob=0.0)
+    if rng.random() < 0.35:
+        return imm
+    if series:
+        return ['Ser', [gen_leaf(rng, rng.choice(['Vstep', 'sV']), s0), imm]]
+    return ['Par', [imm, gen_leaf(rng, rng.choice(['Istep', 'sI']), s0)]]
+
+
+def gen_src_section(rng, s0, shunt_sources_only=False):
+    cls = rng.choice(['LSection', 'TSection', 'PiSection', 'Ladder', 'LadderAlt', 'Series', 'Shunt'])
+    seq = {'LSection': 'sp', 'TSection': 'sps', 'PiSection': 'psp', 'Series': 's', 'Shunt': 'p'}.get(cls)
+    if cls == 'Ladder':
+        seq = 's' + ''.join('s' if k & 1 else 'p' for k in range(rng.randint(2, 3)))
+    if cls == 'LadderAlt':
+        seq = 'p' + ''.join('p' if k & 1 else 's' for k in range(rng.randint(2, 3)))
+    args = []
+    for c in seq:
+        if c == 's' and shunt_sources_only:
+            args.append(gen_leaf(rng, rng.choice(['R', 'L', 'C']), s0, ic_prob=0.0))
+        else:
+            args.append(src_op(rng, s0, c == 's'))
+    return [cls, args]
+
 # ---------------------------------------------------------------------------------------
-CASES_HDR = ('Require Import LT.FieldSec LT.OnePort LT.OnePortNet LT.TwoPort LT.Sections Gen.OnePortGen Gen.C07model Gen.TwoPortGen Gen.SectionsGen.\n'
+CASES_HDR = ('Require Import LT.FieldSec LT.QcI LT.OnePort LT.OnePortNet LT.TwoPort LT.Sections Gen.OnePortGen Gen.C07model Gen.TwoPortGen Gen.SectionsGen.\n'
              'From Coq Require Import List Bool.\nImport ListNotations.\n'
              'Definition meq (a b : mat QcF) : bool := qc_eqb (m11 a) (m11 b) && qc_eqb (m12 a) (m12 b) && qc_eqb (m21 a) (m21 b) && qc_eqb (m22 a) (m22 b).\n')
 
@@ -597,7 +755,7 @@ CORPUS = [
 def run(tier='quick', replay=None):
     res = core.Result(PID, tier)
     rng = random.Random(core.seed() * 7919 + 7)
-    core.ensure_theory(['FieldSec', 'TwoPort', 'OnePort', 'OnePortNet', 'Sections', 'Circuit'])
+    core.ensure_theory(['FieldSec', 'QcI', 'TwoPort', 'OnePort', 'OnePortNet', 'Sections', 'Circuit'])
     w = core.Work(PID)
     violations = []
     try:
@@ -605,7 +763,7 @@ def run(tier='quick', replay=None):
                        'translators tools/tr_oneport.py (sha256 %s), tools/tr_sections.py (%s), tools/tr_twoport.py; statement templates checks/c07gen.py'
                        % (core.sha256_file(os.path.join(core.VERIF, 'tools', 'tr_oneport.py'))[:12],
                           core.sha256_file(os.path.join(core.VERIF, 'tools', 'tr_sections.py'))[:12]),
-                       'specifications coq/theory/OnePort.v (sem), Sections.v (section relations), TwoPort.v (rel_A..rel_Z), Circuit.v (component laws)',
+                       'specifications coq/theory/OnePort.v (sem), Sections.v (section relations, affine relations with source vectors), TwoPort.v (rel_A..rel_Z), Circuit.v (component laws)',
                        'hand models props/C07model.v (_combine, simplify, _net_make) and theory/OnePort.v (fall-backs, Ser/Par sums, guard) validated per run by the correspondence evaluation',
                        'opaque: Laplace/phasor transforms of the source classes (xf_*), sympy arithmetic/cancellation']
         res.assumptions = ['characteristic-0 field with decidable equality',
@@ -673,6 +831,21 @@ def run(tier='quick', replay=None):
                 texts[f] = txt
                 w.write(f, txt)
                 obl_files[f] = names
+            # node threading of Ser._net_make / Par._net_make, executed symbolically from the source per arity
+            try:
+                nmt = TNM.NetMakeTranslator(core.REPO)
+                for cls_ in ('Ser', 'Par'):
+                    nn_, errs_, txt_ = nmt.emit(arities=(2, 3, 4, 5, 6, 7) if tier == 'quick' else tuple(range(2, 12)), classes=(cls_,))
+                    fn_ = 'C07_netmake_%s.v' % cls_
+                    texts[fn_] = txt_
+                    w.write(fn_, txt_)
+                    obl_files[fn_] = nn_
+                    for k_, v_ in errs_.items():
+                        res.failed_obl.append((k_, 'lcapy/oneport.py', v_))
+                        res.obligations += 1
+            except TNM.Untranslatable as e:
+                res.failed_obl.append(('translate_net_make', 'lcapy/oneport.py', str(e)))
+                res.obligations += 1
             names, txt = c07gen.nf_file(otr)
             texts['C07_nf.v'] = txt
             w.write('C07_nf.v', txt)
@@ -690,6 +863,13 @@ def run(tier='quick', replay=None):
                 texts[f] = txt
                 w.write(f, txt)
                 obl_files[f] = names
+            for f, (names, txt) in c07gen.srcconv_files(sect).items():
+                texts[f] = txt
+                w.write(f, txt)
+                obl_files[f] = names
+            for k_, v_ in sect.srcconv_err.items():
+                res.failed_obl.append(('translate_src_%s_%s' % (k_[0], k_[2]), 'lcapy/twoport.py', v_))
+                res.obligations += 1
             unsupported_ctor = dict(('%sMatrix.%s' % k, v) for k, v in sect.ctor_err.items())
             unsupported_ctor.update(sect.unsupported)
         bad = core.gate_text('generated+props', '\n'.join(texts.values()))
@@ -799,9 +979,17 @@ def run(tier='quick', replay=None):
         for i in range(n_one):
             s0 = F(rng.choice(SQUARES))
             prof = ['s', 's', 's', 's', 's', 's', 's', 'dc', 'ac', 'mixed'][i % 10]
-            t = gen_tree(rng, s0, rng.randint(1, 4), profile=prof)
-            cases.append({'mode': 'oneport', 'tree': to_impl(t), 's0': fs(s0), 'timeout': 30})
-            meta.append({'kind': 'oneport', 'tree': t, 's0': s0, 'tag': 'random', 'profile': prof})
+            acw = rng.choice(['1', '2', '3', '1/2']) if prof == 'ac' else None
+            t = gen_tree(rng, s0, rng.randint(1, 4), profile=prof, acw=acw)
+            c_ = {'mode': 'oneport', 'tree': to_impl(t), 's0': fs(s0), 'timeout': 30}
+            m_ = {'kind': 'oneport', 'tree': t, 's0': s0, 'tag': 'random', 'profile': prof}
+            if prof == 'ac':
+                s1 = F(rng.choice([x for x in SQUARES if F(x) != s0]))
+                c_['ac'] = {'omega': acw, 's1': fs(s1)}
+                c_['timeout'] = 45
+                m_.update(acw=F(acw), s1=s1)
+            cases.append(c_)
+            meta.append(m_)
         # section constructors of the matrix classes
         if sect is not None:
             for (kind, ctor) in sorted(set(list(sect.ctors) + list(sect.ctor_err))):
@@ -815,6 +1003,22 @@ def run(tier='quick', replay=None):
                     types = [('Y' if a.startswith('y') else 'Z') if typed and ctor not in ('transformer', 'gyrator') else 'N' for a in spec[0]]
                     cases.append({'mode': 'ctor', 'kind': kind, 'meth': ctor, 'args': [fs(a) for a in args], 'types': types, 's0': fs(s0), 'timeout': 30})
                     meta.append({'kind': 'ctor', 'K': kind, 'ctor': ctor, 'args': args, 's0': s0, 'tag': 'ctor'})
+        # two-port models with source vectors: (i) every model class on numeric matrices, (ii) sections built from
+        # one-ports with sources, measured on the emitted netlist
+        if sect is not None:
+            for X in 'BAGHYZ':
+                for k in range(2 if tier == 'quick' else 8):
+                    m_ = [F(x) for x in rng.sample(VALS, 4)]
+                    src_ = [F(x) for x in rng.sample(VALS, 2)]
+                    cases.append({'mode': 'srcunit', 'kind': X, 'm': [fs(x) for x in m_], 'src': [fs(x) for x in src_], 's0': '9/4', 'timeout': 30})
+                    meta.append({'kind': 'srcunit', 'X': X, 'm': m_, 'src': src_, 's0': F('9/4'), 'tag': 'srcunit'})
+            for k in range(int(os.environ.get('VERIF_NCASES3', 8 if tier == 'quick' else 80))):
+                s0 = F(rng.choice(SQUARES))
+                P = gen_src_section(rng, s0, shunt_sources_only=(k % 3 == 2))
+                if k % 4 == 3:
+                    P = ['Chain', [P, gen_src_section(rng, s0)]]
+                cases.append({'mode': 'twoport_src', 'tp': tp_to_impl(P), 's0': fs(s0), 'timeout': 50})
+                meta.append({'kind': 'twoport_src', 'tp': P, 's0': s0, 'tag': 'random'})
         # targeted: network classes whose obligation failed
         for fn_ in failed_names:
             m_ = re.match(r'^(?:section_sem|ladder_sem)_([A-Za-z0-9]+)$', fn_)
@@ -901,6 +1105,33 @@ def run(tier='quick', replay=None):
                                 key = 'ParSer.%s:initial-conditions-ignored-by-has_independent_source' % qn
                             res.counterexamples.append({'key': key, 'case': c, 'quantity': qn, 'before': fs(a), 'after': fs(b_),
                                                         'simplified': sp_.get('repr'), 'shape': shape(t)})
+                # phasor-domain correspondence: ac sources of one angular frequency, model over Q(i) at s = j w
+                if model1 and prof == 'ac' and isinstance(r.get('ac'), dict) and all(l['cls'] in ('Vac', 'Iac') for l in leaves_of(t) if l.get('src')) \
+                        and all('Y' != 'x' for _ in [0]):
+                    try:
+                        w_, s1 = m['acw'], m['s1']
+                        tdefc = 'Definition tc_%d : tree (lf QcIF) := %s.' % (ci, coq_tree_c(t, order_params))
+                        ldc = '(LDc (QI 0%%Qc %s))' % q(w_)
+                        firstc = True
+                        for qn, fn_ in (('Z', 'Zt %s' % ldc), ('Y', 'Yt %s' % ldc)):
+                            cv = r['ac'].get(qn)
+                            if isinstance(cv, list):
+                                items.append((gi, [tdefc] if firstc else [], 'cchk (%s tc_%d) %s' % (fn_, ci, qi_(F(cv[0]), F(cv[1]))), ci))
+                                labels[gi] = ('phasor.' + qn, ci)
+                                gi += 1
+                                firstc = False
+                        for qn, fn_ in (('Voc', 'Voc_code %s gl' % ldc), ('Isc', 'Isc_code %s gl' % ldc)):
+                            f0, f1 = ratval(alg.get(qn)), ratval(r['ac'].get(qn + '2')) if isinstance(r['ac'].get(qn + '2'), str) else None
+                            if f0 is None or f1 is None:
+                                continue
+                            a_, b_ = phasor_from_laplace(f0, s0, f1, s1, w_)
+                            items.append((gi, [tdefc] if firstc else [], 'cchk (%s tc_%d) %s' % (fn_, ci, qi_(a_, b_)), ci))
+                            labels[gi] = ('phasor.' + qn, ci)
+                            gi += 1
+                            firstc = False
+                        res.count('phasor_model_cases')
+                    except Exception as ex:
+                        res.count('phasor_term_unavailable')
                 # correspondence
                 if model1 and all_s:
                     try:
@@ -976,6 +1207,89 @@ def run(tier='quick', replay=None):
                         K_, ctor, ' '.join(q(a) for a in args), ' '.join(q(x) for x in got)), ci))
                     labels[gi] = ('ctor.%sMatrix.%s' % (K_, ctor), ci)
                     gi += 1
+            elif m.get('kind') == 'srcunit':
+                X, Mx, srcx = m['X'], m['m'], m['src']
+                res.count('srcunit_cases')
+                alg = r.get('alg', {})
+                res.add_case('TwoPort%sModel%s%s' % (X, [fs(x) for x in Mx], [fs(x) for x in srcx]), True)
+                pts = src_points(X, Mx, srcx)
+                own_b_bad = False
+                for T_ in 'BAGHYZ':
+                    if T_ == X or pts is None:
+                        continue
+                    if own_b_bad:
+                        break       # every other source of this model is derived from its (wrong) B-model sources
+                    MT = convert(X, Mx, T_)
+                    if MT is None:
+                        continue
+                    for wi, pr in enumerate(SRC_OWN[T_]):
+                        val = ratval(alg.get(pr)) if isinstance(alg.get(pr), str) else None
+                        if val is None:
+                            continue
+                        res.count('srcunit_checked')
+                        if not src_residual(T_, MT, wi, val, pts):
+                            if T_ == 'B':
+                                own_b_bad = True
+                            owner = 'TwoPort%sModel' % X
+                            if sect is not None and (owner, X, pr) not in sect.srcconv:
+                                owner = 'TwoPort'
+                            res.counterexamples.append({'key': '%s.%s' % (owner, pr), 'case': c, 'lcapy': alg.get(pr),
+                                                        'found_by': 'the %s-model equations of the two-port (%s-model %s, sources %s) do not hold with this source value'
+                                                        % (T_, X, [fs(x) for x in Mx], [fs(x) for x in srcx])})
+                        if model2 and sect is not None:
+                            owner = 'TwoPort%sModel' % X
+                            if (owner, X, pr) not in sect.srcconv:
+                                owner = 'TwoPort' if X == 'B' else None
+                            if owner and (owner, X, pr) in sect.srcconv:
+                                items.append((gi, [], 'qc_eqb (src_%s_%s (K:=QcF) (1%%Qc : QcF) (Mat (K:=QcF) %s) %s %s) %s' % (
+                                    owner, pr, ' '.join(q(x) for x in Mx), q(srcx[0]), q(srcx[1]), q(val)), ci))
+                                labels[gi] = ('src.%s.%s' % (owner, pr), ci)
+                                gi += 1
+            elif m.get('kind') == 'twoport_src':
+                P, s0 = m['tp'], m['s0']
+                res.count('twoport_src_' + P[0])
+                res.add_case('src:' + tp_shape(P) + '@' + fs(s0), True)
+                alg, net = r.get('alg', {}), r.get('net', {})
+                try:
+                    Btb, (vb_t, ib_t) = tb_src(P)
+                    _, (vb_f, ib_f) = tb_src(P, flip_series=True)
+                except Exception:
+                    Btb = None
+                av, ai = ratval(alg.get('V2b')) if isinstance(alg.get('V2b'), str) else None, ratval(alg.get('I2b')) if isinstance(alg.get('I2b'), str) else None
+                flipped = Btb is not None and av is not None and ai is not None and (av, ai) == (vb_f, ib_f) and (av, ai) != (vb_t, ib_t)
+                for qn in ('V1z', 'V2z', 'I1y', 'I2y', 'V1h', 'I2h', 'I1g', 'V2g'):
+                    a = ratval(alg.get(qn)) if isinstance(alg.get(qn), str) else None
+                    n_ = ratval(net.get(qn)) if isinstance(net.get(qn), str) else None
+                    if a is None or n_ is None:
+                        res.count('twoport_src_not_compared')
+                        continue
+                    res.count('twoport_src_compared')
+                    if a != n_:
+                        def has_cls(P_, names):
+                            return P_[0] in names or (P_[0] == 'Chain' and any(has_cls(x, names) for x in P_[1]))
+                        if flipped:
+                            key = 'Series.V2b:sign'
+                        elif Btb is not None and (av, ai) == (vb_t, ib_t) and qn in ('I2h', 'V2g'):
+                            key = '%s.%s' % ((sect.src_B.get(qn) if sect is not None else None) or 'TwoPort', qn)
+                        else:
+                            key = 'twoport_src.%s.%s' % (P[0], qn)
+                        res.counterexamples.append({'key': key, 'case': c, 'quantity': qn, 'algebra': fs(a), 'netlist': fs(n_),
+                                                    'algebra_V2b_I2b': [alg.get('V2b'), alg.get('I2b')],
+                                                    'textbook_V2b_I2b': [fs(vb_t), fs(ib_t)] if Btb is not None else None, 'shape': tp_shape(P)})
+                if model2 and sect is not None and P[0] != 'Chain':
+                    try:
+                        if P[0] in ('Ladder', 'LadderAlt'):
+                            tterm = '(tp_%s (1%%Qc : QcF) %s [%s])' % (P[0], coq_opd(P[1][0]), '; '.join(coq_opd(a_) for a_ in P[1][1:]))
+                        else:
+                            tterm = '(tp_%s (1%%Qc : QcF) %s)' % (P[0], ' '.join(coq_opd(a_) for a_ in P[1]))
+                        for qn, fn_ in (('V2b', 'tV2b %s' % tterm), ('I2b', 'tI2b %s' % tterm)):
+                            a = ratval(alg.get(qn)) if isinstance(alg.get(qn), str) else None
+                            if a is not None:
+                                items.append((gi, [], 'qc_eqb (%s) %s' % (fn_, q(a)), ci))
+                                labels[gi] = ('twoport_src.' + qn, ci)
+                                gi += 1
+                    except Exception:
+                        res.count('twoport_src_term_unavailable')
             elif m.get('kind') == 'twoport':
                 P, s0 = m['tp'], m['s0']
                 res.count('twoport_' + P[0])
@@ -1028,6 +1342,8 @@ def run(tier='quick', replay=None):
                         if d_ not in defs:
                             defs.append(d_)
                 # definitions may have been emitted with an item that was dropped: make sure each used tree is defined
+                for k in set(re.findall(r'\btc_(\d+)\b', ' '.join(it[2] for it in sh))) - set(re.findall(r'Definition tc_(\d+)', ' '.join(defs))):
+                    defs.append('Definition tc_%s : tree (lf QcIF) := %s.' % (k, coq_tree_c(meta[int(k)]['tree'], order_params)))
                 need = set(re.findall(r'\bt_(\d+)\b', ' '.join(it[2] for it in sh)))
                 have = set(re.findall(r'Definition t_(\d+)', ' '.join(defs)))
                 for k in need - have:
@@ -1052,7 +1368,10 @@ def run(tier='quick', replay=None):
                     'Xtal FerriteBead and sV V Vstep v / sI I Istep i (model + oracle, evaluated at a rational s0), Vdc Idc Vac Iac and mixtures '
                     '(oracle only: algebra vs netlist through the Laplace transform of the result), one tree per _combine rule, the DESIGN F9 corpus; '
                     'two-ports: every section class, chains, Par2, Ser2/Hybrid2/InverseHybrid2 (second argument a shunt so that the port '
-                    'condition holds), every section constructor of AMatrix/BMatrix/ZMatrix; non-trivial = the real code returned values; '
+                    'condition holds), every section constructor of AMatrix/BMatrix/ZMatrix; source vectors: each of the six two-port model '
+                    'classes on random numeric matrices and sources (every source property against the defining affine relation), sections '
+                    'and ladders built from one-ports with sources measured on the emitted netlist (8 open/short quantities); '
+                    'non-trivial = the real code returned values; '
                     'distinct = distinct tree shape + values')
 
         # ---- 6. decide -------------------------------------------------------------------------------
@@ -1099,7 +1418,12 @@ def run(tier='quick', replay=None):
                 explained.update(['correspondence:twoport.' + cls_, 'section_sem_' + cls_, 'ladder_sem_' + cls_])
                 if cls_ in ('Chain',):
                     explained.update(['chain_sem', 'chain_B_sem', 'chain_assoc'])
+        SRC_EXPL = {'Series.V2b:sign': ['section_src_Series', 'section_src_SeriesAlt'], 'SeriesAlt.V2b:sign': ['section_src_SeriesAlt'],
+                    'TwoPortBModel.I2h': ['src_conv_B_H'], 'TwoPort.I2h': ['src_conv_TwoPort_H', 'src_conv_B_H'],
+                    'TwoPort.V2g': ['src_conv_B_G', 'src_conv_TwoPort_G'], 'TwoPortGModel.V2b': ['src_conv_G_B'],
+                    'TwoPortHModel.I2b': ['src_conv_H_B']}
         for k in by_key:
+            explained.update(SRC_EXPL.get(k, []))
             if k.startswith('ParSer.'):
                 explained.update(['leaf_guard_sound_L', 'leaf_guard_sound_C', 'leaf_guard_sound_all', 'C07_oneport_code', 'C07_code_eq_spec'])
             m_ = re.match(r'^([ABZ])Matrix\.(\w+)$', k)
